@@ -5,7 +5,7 @@ open WaVerif WaVerif.Proto WaVerif.C29
 
 /-! line protocol (model of `wa run`, table = `cfgCurrent` regenerated from the source):
 `status <wa|wat|wasm> <unreadable|compile|module|normal|exit|panic|trap> [n]`
-  → `status=<s> out=<0|1> expected=<0|1>`   (expected: does the property's predicate hold for s)
+  → `status=<s> out=<0|1> after=<0|1> expected=<0|1>`   (after: is code after the terminating action run)   (expected: does the property's predicate hold for s)
 `sound` → `sound=<true|false> pinned=<true|false>` -/
 
 def parseInput : String → Option Input
@@ -25,7 +25,7 @@ def b01 (b : Bool) : String := if b then "1" else "0"
 
 def answer (inp : Input) (o : Outcome) : String :=
   let s := status cfgCurrent inp o
-  s!"status={s} out={b01 (showsOutput inp o)} expected={b01 (decide (Expected o s))}"
+  s!"status={s} out={b01 (showsOutput inp o)} after={b01 (runsPastEnd inp o)} expected={b01 (decide (Expected o s))}"
 
 def handle (line : String) : String :=
   match words line with
